@@ -68,10 +68,43 @@ def M_models_read_back(which: int) -> int:
         return HELD
 
 
+def N_number_values_exact(k: int, d: int, neg: bool, form: int) -> int:
+    """
+    pre: 0 <= k <= 80 and -2 <= d <= 2 and 0 <= form <= 2
+    post: _ != 0
+    """
+    # the NUMBER branch sliced from the real tokenize turns a decimal lexeme into exactly the integer it spells (any
+    # magnitude: values around every power of two up to 2^80, where a float detour would round) and keeps int vs float;
+    # the whole real reader agrees on the same lexeme in assignment position
+    from crosshair.core import realize
+    from crosshair.tracers import NoTracing
+    from vf.slices import tokenize_number_branch
+
+    k, d, neg, form = realize(k), realize(d), realize(neg), realize(form)
+    with NoTracing():
+        n = (2**k + d) * (-1 if neg else 1)
+        text = str(n) if form == 0 else (str(n) + ".0" if form == 1 else str(n) + "e0")
+        value, raw = tokenize_number_branch()(text)
+        want = n if form == 0 else float(text)
+        if type(value) is not type(want) or value != want or raw != text:
+            return VIOL
+        from octave_mcp.core.emitter import emit
+        from octave_mcp.core.parser import parse
+
+        doc = parse("K::" + text + "\n")
+        got = doc.sections[0].value
+        if type(got) is not type(want) or got != want:
+            return VIOL
+        if form == 0 and emit(doc) != "===INFERRED===\nK::" + text + "\n===END===\n":
+            return VIOL
+        return HELD
+
+
 def obligations(tier, prop=PROP, emit_too=False):
     th = tier == "thorough"
     pf = ["parser.Parser.parse_document", "parse_meta_block", "parse_section", "parse_section_marker", "parse_list", "parse_list_item", "parse_value", "parse_flow_expression", "collect_trailing_comment", "lexer.tokenize (token layout, concrete)", "emitter.emit (canonical text of the model, concrete)"]
     obs = [xh_ob(prop, "M.content-models-read-back", M_models_read_back, timeout=300, bound="2 content models (rich: frontmatter, grammar sentinel, envelope, META with nested level, separator, every value kind at top level / block child / section child / META / list item / inline-map value, nested blocks with target, section markers with annotation and suffix id, duplicate keys, leading / trailing / orphan / document-trailing comments; deep: 3 block levels, empty block, sections with blocks, named section) through the complete real reader", functions=pf)]
+    obs.append(xh_ob(prop, "N.number-lexemes-keep-their-exact-value", N_number_values_exact, timeout=600, bound="decimal lexemes of +-(2^k + d), k = 0..80, d = -2..2, as integer text, with '.0' and with 'e0' (solver-indexed boundary values: one concrete run of the sliced NUMBER branch and of the real reader per choice)", functions=["lexer.tokenize (NUMBER branch, sliced from the live source)", "parser.parse", "emitter.emit_value"]))
     for shape in dm.SHAPES:
         for kind, n in (("STRING", 3), ("IDENTIFIER-value", 3), ("IDENTIFIER-key", 0), ("COMMENT", 2)):
             if shape == "deep" and not kind.startswith("IDENTIFIER"):
